@@ -130,6 +130,10 @@ def run(tier, replay):
         if p["mismatches"]:
             ctx.violation("%s: %d case(s) disagree with WsFrame.tla; first: %s" % (name, p["mismatches"], json.dumps(p["first"][0])[:600]),
                           {"kind": "wsframe-vectors", "part": name, "first": p["first"]})
+        if p.get("drift"):
+            # allowed by the statement of C10, but not what the model of today's frame.rs does (see WsFrame!Matches)
+            ctx.drift("C10 beyond the statement: " + name, "%d case(s); first: %s" % (p["drift"], json.dumps(p["drift_first"][0])[:500]),
+                      {"kind": "wsframe-drift", "part": name, "first": p["drift_first"]})
     ctx.cov["traces_validated_against_impl"] += sum(1 for x in vectors if x["k"] == "frame") + 65536 + counts["wire"]
     ctx.add_part("vectors", **counts)
 
@@ -140,8 +144,12 @@ def run(tier, replay):
     big = sum(1 for r in recs if r["k"] == "frame" and r["f"]["len"] > 65535)
     ctx.add_part("random_executions", records=len(recs), frames=sum(1 for r in recs if r["k"] == "frame"), frames_over_64k=big,
                  max_len=max(r["f"]["len"] for r in recs), byte_strings=sum(1 for r in recs if r["k"] == "bytes"))
+    for pr in t.prints:
+        if isinstance(pr, dict) and pr.get("drift"):
+            ctx.drift("C10 beyond the statement: random executions", "%d record(s) differ only in bytes consumed / error kind / masked payload layout; first: %s"
+                      % (len(pr["drift"]), json.dumps(pr["drift"][0])[:500]), {"kind": "wsframe-trace-drift", "records": pr["drift"]})
     if t.violation:
-        rej = t.prints[-1]["rejected"] if t.prints and "rejected" in t.prints[-1] else []
+        rej = next((pr["rejected"] for pr in reversed(t.prints) if isinstance(pr, dict) and "rejected" in pr), [])
         ctx.violation("random executions rejected by Trace_WsFrame (%s); first: %s" % (t.violated_name, json.dumps(rej[:1])[:700]),
                       {"kind": "wsframe-trace", "rejected": rej})
     elif t.distinct < len(recs):
@@ -161,7 +169,7 @@ def run(tier, replay):
     c2 = copy.deepcopy(next(x for x in vectors if x["k"] == "frame" and x["len"] == 5 - 4 and x["mask"] == 1 and x["key"][0] == 1))
     c2["key"][0] ^= 2                      # the decoder is told another key than the header carries
     c3 = copy.deepcopy(next(x for x in vectors if x["k"] == "wire" and x["exp"]["r"] == "ok" and x["exp"]["f"]["len"] == 2))
-    c3["exp"]["used"] += 1
+    c3["exp"]["f"]["fin"] ^= 1
     c4 = copy.deepcopy(next(x for x in vectors if x["k"] == "hdr2" and x["b0"] == 0x83))
     c4["b1s"][0]["need"] = 0
     c4["b1s"][0]["two"] = "ok"             # claims the reserved opcode 3 is accepted
@@ -179,7 +187,7 @@ def run(tier, replay):
     small[i]["hdr"][1] ^= 1
     vlib.write_lines(tr, small)
     t2 = run_tlc("Trace_WsFrame.tla", "Trace_WsFrame.cfg", D, workers=1, env=dict(JVM, TRACE=tr), timeout=1500, work_id="c10-trace2", deque=True)
-    if t2.violation != "invariant" or not t2.prints or len(t2.prints[-1].get("rejected", [])) != 1:
+    if t2.violation != "invariant" or not t2.prints or len(next((pr["rejected"] for pr in reversed(t2.prints) if "rejected" in pr), [])) != 1:
         raise vlib.ToolError("binding self-test: corrupted trace record was not rejected")
     ctx.add_part("binding_self_test", corrupted_vectors_rejected=list(got), corrupted_trace_record_rejected=True)
     os.remove(tr)
